@@ -67,6 +67,28 @@ let parse_op = function
   | ["move"; n; d] -> M.FMove (bh n, d = "up")
   | _ -> failwith "bad op"
 
+(* ---- building real trees (factory/Build.v) *)
+let bstate : M.bstate ref = ref M.b_empty
+let loaded : M.bytes list ref = ref []
+
+let fv_of_string t =
+  if String.length t = 0 then failwith "empty value" else
+  let body = String.sub t 1 (String.length t - 1) in
+  match t.[0] with
+  | 's' -> M.FS (bh body)
+  | 'i' -> M.FI (bytes_of_string body)
+  | 'l' -> M.FL (if body = "" then [] else List.map bh (String.split_on_char '+' body))
+  | _ -> failwith "bad value"
+let tuple_of_string t = if t = "()" then [] else List.map fv_of_string (String.split_on_char ',' t)
+let tuples_of_string t = if t = "-" then [] else List.map tuple_of_string (String.split_on_char ';' t)
+
+let perr_str = function
+  | M.EUnknownCommand _ -> "unknown_command" | M.EExtNotLoaded _ -> "ext_not_loaded"
+  | M.EBadArgument -> "bad_argument" | M.EBadValue -> "bad_value" | _ -> "other"
+
+let bres_str f = function
+  | M.BOk a -> f a | M.BErr e -> "err:" ^ perr_str e | M.BCrash -> "crash"
+
 let lst l = match l with [] -> "-" | _ -> String.concat "," (List.map hb l)
 
 let handle line =
@@ -78,6 +100,19 @@ let handle line =
       let (r2, ss') = M.spec_step !sstate o in
       state := s'; sstate := ss';
       ret_str r ^ " | " ^ dump () ^ " | " ^ ret_str r2 ^ " | " ^ sdump ()
+  | ["bnew"] -> bstate := M.b_empty; loaded := []; "ok"
+  | ["bloaded"; l] -> loaded := (if l = "-" then [] else List.map bh (String.split_on_char ',' l)); "ok"
+  | ["badd"; n; mt; cs; acts] ->
+      bres_str (fun (r, st) -> bstate := st; ret_str r)
+        (M.b_addfilter M.gen_tables !loaded (bh n) (tuples_of_string cs) (tuples_of_string acts) (bh mt) !bstate)
+  | ["bupdate"; o; n; mt; cs; acts] ->
+      bres_str (fun (r, st) -> bstate := st; ret_str r)
+        (M.b_updatefilter M.gen_tables !loaded (bh o) (bh n) (tuples_of_string cs) (tuples_of_string acts) (bh mt) !bstate)
+  | "bop" :: t ->
+      let (r, st) = M.b_step (parse_op t) !bstate in bstate := st; ret_str r
+  | ["brender"; np; dp] ->
+      bres_str hb (M.b_render M.gen_tables !loaded (nat_of_int 64) (bh np) (bh dp) !bstate)
+  | ["brequires"] -> lst (!bstate).M.b_reqs
   | ["get"; n] -> ret_str (M.op_get (bh n) !state)
   | ["isdisabled"; n] -> ret_str (M.op_is_disabled (bh n) !state)
   | ["fquote"; v] -> hb (M.fquote (bh v))
